@@ -1,9 +1,12 @@
-"""hdrgen: generator of cbindgen-shaped C headers for seeded API models (DESIGN.md §3/C18).
+"""hdrgen: generator of cbindgen-shaped C headers for seeded API models (DESIGN.md §3/C18, C17).
 
 No cbindgen exists offline, so the input headers of cglue-bindgen are produced here. The shapes are
 taken from the regular expressions in cglue-bindgen/src/codegen/c.rs (the tool's own definition of
-"supported shape") and from the structures visible in examples/pregen-headers/bindings.h. This is a
-model of an external tool; its fidelity is the main assumption of the C18 check.
+"supported shape") and from the structures visible in examples/pregen-headers/bindings.h; type
+names follow cbindgen's mangling scheme (`_` opens a generic list, `__` separates arguments, `___`
+closes a list unless it ends the whole name, `____`/`_____` start a mutable/constant pointer),
+which reproduces every name of the pregenerated example header. This is a model of an external
+tool; its fidelity is the main assumption of the C17 and C18 checks.
 
 Everything is a pure function of the model seed (own splitmix/xorshift PRNG, no `random`).
 """
@@ -49,6 +52,15 @@ ZST_DOC = """/**
  */
 """
 
+REAL_TMP_DOC = """/**
+ * Temporary return value structure, for returning wrapped references.
+ *
+ * This structure contains data for each vtable function that returns a reference to
+ * an associated type. Note that these temporary values should not be accessed
+ * directly. Use the trait functions.
+ */
+"""
+
 VTBL_DOC = """/**
  * CGlue vtable for trait %s.
  *
@@ -75,21 +87,86 @@ CONT_DOC = """/**
 """
 
 GROUP_DOC = """/**
- * Trait group %s.
+ * Trait group potentially implementing `%s` traits.
  *
  * Optional traits are not implemented here, however. There are numerous conversion
  * functions available for safely retrieving a concrete collection of traits.
  */
 """
 
+C_VOID = ("c_void", [])
+CONT_TYPES = {
+    "Box": ("CBox", [C_VOID]),
+    "Mut": ("*mut", C_VOID),
+    "Ref": ("*const", C_VOID),
+}
+CONT_FIELD = {
+    "Box": "struct CBox_c_void instance;",
+    "Mut": "void *instance;",
+    "Ref": "const void *instance;",
+}
+# kept for older replay files / callers
 CONTAINERS = {
-    # key: (cbindgen name, C field type of `instance`)
-    "Box": ("CBox_c_void", "struct CBox_c_void instance;"),
-    "Mut": ("____c_void", "void *instance;"),
-    "Ref": ("_____c_void", "const void *instance;"),
+    "Box": ("CBox_c_void", CONT_FIELD["Box"]),
+    "Mut": ("____c_void", CONT_FIELD["Mut"]),
+    "Ref": ("_____c_void", CONT_FIELD["Ref"]),
 }
 
 SCALARS = ["uint64_t", "int32_t", "uintptr_t", "uint8_t", "bool"]
+RICH_ARGS = ["struct ArgPair", "struct CSliceRef_u8", "const uint8_t *", "void *", "struct Callback_c_void__{cb}"]
+CB_PAYLOAD_CTYPE = {"ArgPair": "struct ArgPair", "u64": "uint64_t"}
+
+
+def ctx_type(ctx):
+    if ctx == "CArc_c_void":
+        return ("CArc", [C_VOID])
+    return (ctx, [])
+
+
+def mangle(t, last=True):
+    """cbindgen's name mangling of a generic path."""
+    name, args = t
+    if name == "*mut":
+        return "____" + mangle(args, last)
+    if name == "*const":
+        return "_____" + mangle(args, last)
+    if not args:
+        return name
+    s = name + "_"
+    for i, a in enumerate(args):
+        if i:
+            s += "__"
+        s += mangle(a, last and i == len(args) - 1)
+    if not last:
+        s += "___"
+    return s
+
+
+def t_rettmp(trait, ctx):
+    return (trait + "RetTmp", [ctx_type(ctx)])
+
+
+def t_objcont(cont, ctx, trait):
+    return ("CGlueObjContainer", [CONT_TYPES[cont], ctx_type(ctx), t_rettmp(trait, ctx)])
+
+
+def t_obj(cont, ctx, trait):
+    return ("CGlueTraitObj", [CONT_TYPES[cont], (trait + "Vtbl", [t_objcont(cont, ctx, trait)]), ctx_type(ctx), t_rettmp(trait, ctx)])
+
+
+def t_gcont(group, cont, ctx):
+    return (group + "Container", [CONT_TYPES[cont], ctx_type(ctx)])
+
+
+def t_group(group, cont, ctx):
+    return (group, [CONT_TYPES[cont], ctx_type(ctx)])
+
+
+def cont_name(cont, ctx, trait):
+    return mangle(t_objcont(cont, ctx, trait))
+
+
+NAME_SETS = [["Alpha", "Beta", "Gamma"], ["Alpha", "Beta", "Gamma"], ["Store", "KeyStore", "Gamma"], ["KeyStore", "Store", "Beta"]]
 
 
 def gen_model(seed):
@@ -99,24 +176,46 @@ def gen_model(seed):
     if seed % 3 == 0 and not user_ctxs:
         user_ctxs = ["MyCtx"]
     contexts = ["CArc_c_void"] + user_ctxs
+    names = r.pick(NAME_SETS)
+    rich = r.chance(1, 2)
+    cb = "u64" if r.chance(1, 4) else "ArgPair"
+    shared_name = r.chance(1, 4)
     traits = []
     for ti in range(ntraits):
-        name = ["Alpha", "Beta", "Gamma"][ti]
+        name = names[ti]
         funcs = []
         for fi in range(1 + r.below(3)):
             kind = r.pick(["ref", "ref", "mut", "own"])
-            args = [(r.pick(SCALARS), "a%d" % k) for k in range(r.below(3))]
-            ret = r.pick(["void"] + SCALARS)
-            funcs.append(("%s_f%d" % (name.lower(), fi), kind, args, ret))
+            pool = SCALARS + (RICH_ARGS if rich else [])
+            args = [(r.pick(pool).replace("{cb}", cb), "a%d" % k) for k in range(r.below(5 if rich else 3))]
+            ret = r.pick(["void"] + SCALARS + (["struct ArgPair", "const uint8_t *"] if rich else []))
+            fname = "%s_f%d" % (name.lower(), fi)
+            if shared_name and fi == 0:
+                fname = "common_op"
+            funcs.append((fname, kind, args, ret))
         conts = [c for c in ("Box", "Mut", "Ref") if r.chance(1, 2)] or ["Box"]
-        traits.append({"name": name, "funcs": funcs, "conts": conts})
+        traits.append({"name": name, "funcs": funcs, "conts": conts, "rettmp_real": ti >= 1 and r.chance(1, 3)})
+    groups = []
+    if r.chance(1, 2):
+        for gi in range(1 + r.below(2)):
+            members = [t["name"] for t in traits if r.chance(2, 3)] or [traits[0]["name"]]
+            groups.append({
+                "name": ["Bundle", "Kit"][gi],
+                "traits": members,
+                "conts": [c for c in ("Box", "Mut") if r.chance(1, 2)] or ["Box"],
+                "ctxs": [contexts[0]] + ([contexts[1]] if len(contexts) > 1 and r.chance(1, 3) else []),
+                "clone": r.chance(1, 2),
+            })
     model = {
+        "v": 2,
         "seed": seed,
         "traits": traits,
+        "groups": groups,
         "contexts": contexts,
+        "callback_payload": cb,
+        "no_context": r.chance(1, 4),
         "leftover": r.chance(2, 3),
         "generic_objs": r.chance(1, 3),
-        "group": r.chance(1, 3),
         "foreign_early": r.chance(1, 2),
         "foreign_names": r.chance(1, 2),
         "guard": r.chance(1, 2),
@@ -124,12 +223,63 @@ def gen_model(seed):
     return model
 
 
-def cont_name(cont, ctx, trait):
-    return "CGlueObjContainer_%s_____%s_____%sRetTmp_%s" % (CONTAINERS[cont][0], ctx, trait, ctx)
+def obj_contexts(model):
+    return list(model["contexts"]) + (["NoContext"] if model.get("no_context") else [])
+
+
+def field_ctx(ctx):
+    return "struct %s context;" % ctx
+
+
+def vtbl_lines(funcs, cn, v1_cont=None):
+    lines = []
+    for (fname, kind, args, ret) in funcs:
+        if v1_cont is not None and kind == "own" and v1_cont != "Box":
+            continue
+        recv = {"ref": "const struct %s *cont" % cn, "mut": "struct %s *cont" % cn, "own": "struct %s cont" % cn}[kind]
+        arglist = ", ".join([recv] + ["%s%s%s" % (a[0], "" if a[0].endswith("*") else " ", a[1]) for a in args])
+        lines.append("    %s%s(*%s)(%s);" % (ret, "" if ret.endswith("*") else " ", fname, arglist))
+    return lines
+
+
+def object_types(model):
+    """Every object/group instantiation of the header, in header order: what a C user can hold."""
+    out = []
+    v1 = model.get("v", 1) < 2
+    for t in model["traits"]:
+        for cont in t["conts"]:
+            for ctx in (model["contexts"] if v1 else obj_contexts(model)):
+                if v1:
+                    cn = "CGlueObjContainer_%s_____%s_____%sRetTmp_%s" % (CONTAINERS[cont][0], ctx, t["name"], ctx)
+                    vn = "%sVtbl_%s" % (t["name"], cn)
+                    on = "CGlueTraitObj_%s_____%s______________%s_____%sRetTmp_%s" % (CONTAINERS[cont][0], vn, ctx, t["name"], ctx)
+                else:
+                    cn = mangle(t_objcont(cont, ctx, t["name"]))
+                    vn = mangle((t["name"] + "Vtbl", [t_objcont(cont, ctx, t["name"])]))
+                    on = mangle(t_obj(cont, ctx, t["name"]))
+                out.append({"kind": "obj", "name": t["name"], "cont": cont, "ctx": ctx, "struct": on, "container": cn,
+                            "vtbls": [{"trait": t["name"], "type": vn, "field": "vtbl", "funcs": t["funcs"] if not v1 else [f for f in t["funcs"] if not (f[1] == "own" and cont != "Box")]}],
+                            "ret_tmp": ["ret_tmp"] if t.get("rettmp_real") else []})
+    for g in model.get("groups", []):
+        tmap = {t["name"]: t for t in model["traits"]}
+        for cont in g["conts"]:
+            for ctx in g["ctxs"]:
+                cn = mangle(t_gcont(g["name"], cont, ctx))
+                gn = mangle(t_group(g["name"], cont, ctx))
+                vt = []
+                for tn in g["traits"]:
+                    vt.append({"trait": tn, "type": mangle((tn + "Vtbl", [t_gcont(g["name"], cont, ctx)])), "field": "vtbl_" + tn.lower(), "funcs": tmap[tn]["funcs"]})
+                if g.get("clone"):
+                    vt.append({"trait": "Clone", "type": mangle(("CloneVtbl", [t_gcont(g["name"], cont, ctx)])), "field": "vtbl_clone", "funcs": [("clone", "ref", [], "struct " + cn)]})
+                out.append({"kind": "group", "name": g["name"], "cont": cont, "ctx": ctx, "struct": gn, "container": cn, "vtbls": vt,
+                            "ret_tmp": ["ret_tmp_" + tn.lower() for tn in g["traits"] if tmap[tn].get("rettmp_real")]})
+    return out
 
 
 def render(model):
     """Returns (header text, ordered list of foreign declaration markers)."""
+    if model.get("v", 1) < 2:
+        return render_v1(model)
     out = []
     w = out.append
     foreign = []
@@ -143,54 +293,65 @@ def render(model):
     w("/**\n * FFI-Safe Arc\n */\ntypedef struct CArc_c_void {\n    const void *instance;\n    const void *(*clone_fn)(const void*);\n    void (*drop_fn)(const void*);\n} CArc_c_void;\n")
     for c in model["contexts"][1:]:
         w("/**\n * A user context type.\n */\ntypedef struct %s {\n    uint64_t tag;\n    void *handle;\n} %s;\n" % (c, c))
+    w("/**\n * A two-field argument structure.\n */\ntypedef struct ArgPair {\n    uint32_t a;\n    uint64_t b;\n} ArgPair;\n")
+    w("/**\n * Wrapper around const slices.\n */\ntypedef struct CSliceRef_u8 {\n    const uint8_t *data;\n    uintptr_t len;\n} CSliceRef_u8;\n")
+    cb = model.get("callback_payload", "ArgPair")
+    w("/**\n * FFI-safe callback.\n */\ntypedef struct Callback_c_void__%s {\n    void *context;\n    bool (*func)(void*, %s);\n} Callback_c_void__%s;\n" % (cb, CB_PAYLOAD_CTYPE[cb], cb))
     if model["foreign_names"]:
         # user declarations whose names resemble CGlue patterns
         w("/**\n * Not a CGlue vtable, despite the name.\n */\ntypedef struct UserVtblLike {\n    void (*callback)(void *ctx);\n    uintptr_t RetTmp_count;\n} UserVtblLike;\n")
         foreign.append("typedef struct UserVtblLike {")
+    octx = obj_contexts(model)
+    tmap = {t["name"]: t for t in model["traits"]}
     for t in model["traits"]:
         T = t["name"]
-        for ctx in model["contexts"]:
-            w("\n" + ZST_DOC + "typedef struct %sRetTmp_%s %sRetTmp_%s;\n" % (T, ctx, T, ctx))
+        for ctx in octx:
+            rn = mangle(t_rettmp(T, ctx))
+            if t.get("rettmp_real"):
+                w("\n" + REAL_TMP_DOC + "typedef struct %s {\n    uint64_t %s_slot[2];\n} %s;\n" % (rn, T.lower(), rn))
+            else:
+                w("\n" + ZST_DOC + "typedef struct %s %s;\n" % (rn, rn))
         for cont in t["conts"]:
-            for ctx in model["contexts"]:
-                cn = cont_name(cont, ctx, T)
-                w(CONT_DOC + "typedef struct %s {\n    %s\n    %s context;\n    struct %sRetTmp_%s ret_tmp;\n} %s;\n" % (
-                    cn, CONTAINERS[cont][1], ("struct " + ctx) if ctx != "CArc_c_void" else "struct CArc_c_void", T, ctx, cn))
-                vn = "%sVtbl_%s" % (T, cn)
-                lines = []
-                for (fname, kind, args, ret) in t["funcs"]:
-                    if kind == "own" and cont != "Box":
-                        continue
-                    recv = {"ref": "const struct %s *cont" % cn, "mut": "struct %s *cont" % cn, "own": "struct %s cont" % cn}[kind]
-                    arglist = ", ".join([recv] + ["%s %s" % a for a in args])
-                    lines.append("    %s (*%s)(%s);" % (ret, fname, arglist))
-                if not lines:
-                    lines.append("    void (*%s_noop)(const struct %s *cont);" % (T.lower(), cn))
-                w(VTBL_DOC % T + "typedef struct %s {\n%s\n} %s;\n" % (vn, "\n".join(lines), vn))
-                on = "CGlueTraitObj_%s_____%s______________%s_____%sRetTmp_%s" % (CONTAINERS[cont][0], vn, ctx, T, ctx)
+            for ctx in octx:
+                cn = mangle(t_objcont(cont, ctx, T))
+                rn = mangle(t_rettmp(T, ctx))
+                w(CONT_DOC + "typedef struct %s {\n    %s\n    %s\n    struct %s ret_tmp;\n} %s;\n" % (cn, CONT_FIELD[cont], field_ctx(ctx), rn, cn))
+                vn = mangle((T + "Vtbl", [t_objcont(cont, ctx, T)]))
+                w(VTBL_DOC % T + "typedef struct %s {\n%s\n} %s;\n" % (vn, "\n".join(vtbl_lines(t["funcs"], cn)), vn))
+                on = mangle(t_obj(cont, ctx, T))
                 w(OBJ_DOC + "typedef struct %s {\n    const struct %s *vtbl;\n    struct %s container;\n} %s;\n" % (on, vn, cn, on))
-                w("/**\n * Base CGlue trait object for trait %s.\n */\ntypedef struct %s %sBase_%s_____%s;\n" % (T, on, T, CONTAINERS[cont][0], ctx))
-    if model.get("generic_objs"):
+                w("/**\n * Base CGlue trait object for trait %s.\n */\ntypedef struct %s %s;\n" % (T, on, mangle((T + "Base", [CONT_TYPES[cont], ctx_type(ctx)]))))
+    for g in model.get("groups", []):
+        G = g["name"]
+        for cont in g["conts"]:
+            for ctx in g["ctxs"]:
+                cn = mangle(t_gcont(G, cont, ctx))
+                tmp_fields = "".join("    struct %s ret_tmp_%s;\n" % (mangle(t_rettmp(tn, ctx)), tn.lower()) for tn in g["traits"])
+                w("typedef struct %s {\n    %s\n    %s\n%s} %s;\n" % (cn, CONT_FIELD[cont], field_ctx(ctx), tmp_fields, cn))
+                vfields = []
+                for tn in g["traits"]:
+                    vn = mangle((tn + "Vtbl", [t_gcont(G, cont, ctx)]))
+                    w(VTBL_DOC % tn + "typedef struct %s {\n%s\n} %s;\n" % (vn, "\n".join(vtbl_lines(tmap[tn]["funcs"], cn)), vn))
+                    vfields.append("    const struct %s *vtbl_%s;" % (vn, tn.lower()))
+                if g.get("clone"):
+                    vn = mangle(("CloneVtbl", [t_gcont(G, cont, ctx)]))
+                    w(VTBL_DOC % "Clone" + "typedef struct %s {\n    struct %s (*clone)(const struct %s *cont);\n} %s;\n" % (vn, cn, cn, vn))
+                    vfields.append("    const struct %s *vtbl_clone;" % vn)
+                gn = mangle(t_group(G, cont, ctx))
+                w(GROUP_DOC % " + ".join("%s < >" % tn for tn in g["traits"]) + "typedef struct %s {\n%s\n    struct %s container;\n} %s;\n" % (gn, "\n".join(vfields), cn, gn))
+    if model.get("generic_objs") and not model["traits"][0].get("rettmp_real"):
         # the same single-trait object also exposed generically over the context (cbindgen keeps a
-        # `Context`-parametrised copy next to the concrete ones); cbindgen's mangling puts
-        # `Context__` before the next argument and 11 underscores in the object name
+        # `Context`-parametrised copy next to the concrete ones)
         t = model["traits"][0]
         T = t["name"]
         cont = t["conts"][0]
-        w("\n" + ZST_DOC + "typedef struct %sRetTmp_Context %sRetTmp_Context;\n" % (T, T))
-        cn = "CGlueObjContainer_%s_____Context__%sRetTmp_Context" % (CONTAINERS[cont][0], T)
-        w(CONT_DOC + "typedef struct %s {\n    %s\n    Context context;\n    struct %sRetTmp_Context ret_tmp;\n} %s;\n" % (cn, CONTAINERS[cont][1], T, cn))
-        vn = "%sVtbl_%s" % (T, cn)
-        lines = []
-        for (fname, kind, args, ret) in t["funcs"]:
-            if kind == "own" and cont != "Box":
-                continue
-            recv = {"ref": "const struct %s *cont" % cn, "mut": "struct %s *cont" % cn, "own": "struct %s cont" % cn}[kind]
-            lines.append("    %s (*%s)(%s);" % (ret, fname, ", ".join([recv] + ["%s %s" % a for a in args])))
-        if not lines:
-            lines.append("    void (*%s_noop)(const struct %s *cont);" % (T.lower(), cn))
-        w(VTBL_DOC % T + "typedef struct %s {\n%s\n} %s;\n" % (vn, "\n".join(lines), vn))
-        on = "CGlueTraitObj_%s_____%s___________Context__%sRetTmp_Context" % (CONTAINERS[cont][0], vn, T)
+        rn = mangle(t_rettmp(T, "Context"))
+        w("\n" + ZST_DOC + "typedef struct %s %s;\n" % (rn, rn))
+        cn = mangle(t_objcont(cont, "Context", T))
+        w(CONT_DOC + "typedef struct %s {\n    %s\n    Context context;\n    struct %s ret_tmp;\n} %s;\n" % (cn, CONT_FIELD[cont], rn, cn))
+        vn = mangle((T + "Vtbl", [t_objcont(cont, "Context", T)]))
+        w(VTBL_DOC % T + "typedef struct %s {\n%s\n} %s;\n" % (vn, "\n".join(vtbl_lines(t["funcs"], cn)), vn))
+        on = mangle(t_obj(cont, "Context", T))
         w(OBJ_DOC + "typedef struct %s {\n    const struct %s *vtbl;\n    struct %s container;\n} %s;\n\n" % (on, vn, cn, on))
     if model["leftover"]:
         # a structure cbindgen left generic over the context
@@ -210,11 +371,110 @@ def render(model):
     return "\n".join(out), foreign
 
 
+def render_v1(model):
+    """The first generation of the header model (kept so that recorded replay files and the
+    archived C18 witness keep meaning what they meant)."""
+    out = []
+    w = out.append
+    foreign = []
+    if model["guard"]:
+        w("#ifndef BINDINGS_H\n#define BINDINGS_H\n")
+    w("#include <stdarg.h>\n#include <stdbool.h>\n#include <stdint.h>\n#include <stdlib.h>\n")
+    if model["foreign_early"]:
+        w("/**\n * A user structure unrelated to CGlue.\n */\ntypedef struct UserPoint {\n    int32_t x;\n    int32_t y;\n} UserPoint;\n")
+        foreign.append("typedef struct UserPoint {")
+    w("/**\n * FFI-safe box\n */\ntypedef struct CBox_c_void {\n    void *instance;\n    void (*drop_fn)(void*);\n} CBox_c_void;\n")
+    w("/**\n * FFI-Safe Arc\n */\ntypedef struct CArc_c_void {\n    const void *instance;\n    const void *(*clone_fn)(const void*);\n    void (*drop_fn)(const void*);\n} CArc_c_void;\n")
+    for c in model["contexts"][1:]:
+        w("/**\n * A user context type.\n */\ntypedef struct %s {\n    uint64_t tag;\n    void *handle;\n} %s;\n" % (c, c))
+    if model["foreign_names"]:
+        w("/**\n * Not a CGlue vtable, despite the name.\n */\ntypedef struct UserVtblLike {\n    void (*callback)(void *ctx);\n    uintptr_t RetTmp_count;\n} UserVtblLike;\n")
+        foreign.append("typedef struct UserVtblLike {")
+    for t in model["traits"]:
+        T = t["name"]
+        for ctx in model["contexts"]:
+            w("\n" + ZST_DOC + "typedef struct %sRetTmp_%s %sRetTmp_%s;\n" % (T, ctx, T, ctx))
+        for cont in t["conts"]:
+            for ctx in model["contexts"]:
+                cn = "CGlueObjContainer_%s_____%s_____%sRetTmp_%s" % (CONTAINERS[cont][0], ctx, T, ctx)
+                w(CONT_DOC + "typedef struct %s {\n    %s\n    %s context;\n    struct %sRetTmp_%s ret_tmp;\n} %s;\n" % (
+                    cn, CONTAINERS[cont][1], "struct " + ctx, T, ctx, cn))
+                vn = "%sVtbl_%s" % (T, cn)
+                lines = vtbl_lines(t["funcs"], cn, v1_cont=cont)
+                if not lines:
+                    lines.append("    void (*%s_noop)(const struct %s *cont);" % (T.lower(), cn))
+                w(VTBL_DOC % T + "typedef struct %s {\n%s\n} %s;\n" % (vn, "\n".join(lines), vn))
+                on = "CGlueTraitObj_%s_____%s______________%s_____%sRetTmp_%s" % (CONTAINERS[cont][0], vn, ctx, T, ctx)
+                w(OBJ_DOC + "typedef struct %s {\n    const struct %s *vtbl;\n    struct %s container;\n} %s;\n" % (on, vn, cn, on))
+                w("/**\n * Base CGlue trait object for trait %s.\n */\ntypedef struct %s %sBase_%s_____%s;\n" % (T, on, T, CONTAINERS[cont][0], ctx))
+    if model.get("generic_objs"):
+        t = model["traits"][0]
+        T = t["name"]
+        cont = t["conts"][0]
+        w("\n" + ZST_DOC + "typedef struct %sRetTmp_Context %sRetTmp_Context;\n" % (T, T))
+        cn = "CGlueObjContainer_%s_____Context__%sRetTmp_Context" % (CONTAINERS[cont][0], T)
+        w(CONT_DOC + "typedef struct %s {\n    %s\n    Context context;\n    struct %sRetTmp_Context ret_tmp;\n} %s;\n" % (cn, CONTAINERS[cont][1], T, cn))
+        vn = "%sVtbl_%s" % (T, cn)
+        lines = vtbl_lines(t["funcs"], cn, v1_cont=cont)
+        if not lines:
+            lines.append("    void (*%s_noop)(const struct %s *cont);" % (T.lower(), cn))
+        w(VTBL_DOC % T + "typedef struct %s {\n%s\n} %s;\n" % (vn, "\n".join(lines), vn))
+        on = "CGlueTraitObj_%s_____%s___________Context__%sRetTmp_Context" % (CONTAINERS[cont][0], vn, T)
+        w(OBJ_DOC + "typedef struct %s {\n    const struct %s *vtbl;\n    struct %s container;\n} %s;\n\n" % (on, vn, cn, on))
+    if model["leftover"]:
+        w("/**\n * Holder that is generic over the context.\n */\ntypedef struct Holder_____c_void__Context {\n    void *instance;\n    Context context;\n    uint32_t flags;\n} Holder_____c_void__Context;\n\n")
+    w("typedef struct UserTail {\n    uint8_t bytes[4];\n} UserTail;\n")
+    foreign.append("typedef struct UserTail {")
+    w("#ifdef __cplusplus\nextern \"C\" {\n#endif // __cplusplus\n")
+    w("void user_free_function(struct UserTail *tail, uintptr_t n);\n")
+    foreign.append("void user_free_function(struct UserTail *tail, uintptr_t n);")
+    t0 = model["traits"][0]
+    cn0 = "CGlueObjContainer_%s_____%s_____%sRetTmp_%s" % (CONTAINERS[t0["conts"][0]][0], "CArc_c_void", t0["name"], "CArc_c_void")
+    w("int32_t create_%s(struct CArc_c_void *lib, struct %s *out);\n" % (t0["name"].lower(), cn0))
+    foreign.append("int32_t create_%s(" % t0["name"].lower())
+    w("#ifdef __cplusplus\n} // extern \"C\"\n#endif // __cplusplus\n")
+    if model["guard"]:
+        w("#endif /* BINDINGS_H */\n")
+    return "\n".join(out), foreign
+
+
+def layout_asserts(model):
+    """C99 text: for every CGlue container and object of the model, a mirror structure built from
+    the model alone (instance, context unless NoContext, temporaries only where the trait really
+    has them) and compile-time comparisons of size and of every field offset."""
+    lines = ["#include <stddef.h>", "#define LAYOUT_EQ(n, c) typedef char layout_assert_##n[(c) ? 1 : -1]"]
+    k = 0
+    for o in object_types(model):
+        k += 1
+        fields = [CONT_FIELD[o["cont"]]]
+        names = ["instance"]
+        if o["ctx"] != "NoContext":
+            fields.append(field_ctx(o["ctx"]))
+            names.append("context")
+        for rt in o["ret_tmp"]:
+            fields.append("uint64_t %s[2];" % rt)
+            names.append(rt)
+        lines.append("struct mirror_cont_%d { %s };" % (k, " ".join(fields)))
+        lines.append("LAYOUT_EQ(cs%d, sizeof(struct %s) == sizeof(struct mirror_cont_%d));" % (k, o["container"], k))
+        for n in names:
+            lines.append("LAYOUT_EQ(c%d_%s, offsetof(struct %s, %s) == offsetof(struct mirror_cont_%d, %s));" % (k, n, o["container"], n, k, n))
+        vf = " ".join("const void *%s;" % v["field"] for v in o["vtbls"])
+        lines.append("struct mirror_obj_%d { %s struct mirror_cont_%d container; };" % (k, vf, k))
+        lines.append("LAYOUT_EQ(os%d, sizeof(struct %s) == sizeof(struct mirror_obj_%d));" % (k, o["struct"], k))
+        for v in o["vtbls"]:
+            lines.append("LAYOUT_EQ(o%d_%s, offsetof(struct %s, %s) == offsetof(struct mirror_obj_%d, %s));" % (k, v["field"], o["struct"], v["field"], k, v["field"]))
+        lines.append("LAYOUT_EQ(o%d_container, offsetof(struct %s, container) == offsetof(struct mirror_obj_%d, container));" % (k, o["struct"], k))
+    return "\n".join(lines) + "\n"
+
+
 def describe(model):
     return {
         "seed": model["seed"],
-        "traits": [{"name": t["name"], "containers": t["conts"], "functions": [(f[0], f[1], len(f[2]), f[3]) for f in t["funcs"]]} for t in model["traits"]],
+        "traits": [{"name": t["name"], "containers": t["conts"], "real_ret_tmp": bool(t.get("rettmp_real")), "functions": [(f[0], f[1], len(f[2]), f[3]) for f in t["funcs"]]} for t in model["traits"]],
+        "groups": [{"name": g["name"], "traits": g["traits"], "containers": g["conts"], "contexts": g["ctxs"], "clone": g.get("clone", False)} for g in model.get("groups", [])],
         "contexts": model["contexts"],
+        "no_context_objects": bool(model.get("no_context")),
+        "callback_payload": model.get("callback_payload"),
         "context_generic_leftover": model["leftover"],
         "context_generic_trait_object": model.get("generic_objs", False),
         "foreign_early": model["foreign_early"],
